@@ -22,7 +22,7 @@ pub fn meta() -> PropMeta {
     PropMeta {
         id: "C09",
         level: "exploration",
-        rule: "a real Receiver (credit policy Auto(n), n in {1,2,3,4,10,200}, or Manual) talks to a scripted sender with an arbitrary initial-delivery-count (incl. values near 2^32); generated histories, executed step-wise: peer deliveries of 1-3 frames (unsettled or pre-settled) sent only while the latest flow leaves credit, application recv+accept one by one, recv k then accept_all, reject, recv without disposing, set_credit(k), drain (under either policy), a peer flow restating its delivery-count, and finally optionally one delivery beyond the credit. Oracle: every flow from the receiver reports delivery-count in [initial + deliveries the application had received, initial + deliveries arrived] and link-credit equal to the policy's intent (set_credit value / Auto maximum on refresh / remaining credit on drain); whenever the application has received and disposed of everything that arrived under Auto(n), the latest flow leaves credit outstanding (a credit-respecting sender never stalls, streams of 6n+ deliveries complete); a delivery beyond the credit is not returned by recv: recv fails with TransferLimitExceeded and the detach carries amqp:link:transfer-limit-exceeded. Non-trivial: stream longer than the credit, or an overrun injected; distinct by hash of the case.",
+        rule: "a real Receiver (credit policy Auto(n), n in {1,2,3,4,10,200}, or Manual) talks to a scripted sender with an arbitrary initial-delivery-count (incl. values near 2^32); generated histories, executed step-wise: peer deliveries of 1-3 frames (unsettled or pre-settled; some with a payload that does not decode, which recv reports as MessageDecode and the application rejects through the carried info) sent only while the latest flow leaves credit, receiver with or without auto_accept, application recv+accept one by one, recv k then accept_all, reject, recv without disposing, set_credit(k), drain (under either policy), a peer flow restating its delivery-count, and finally optionally one delivery beyond the credit. Oracle: every flow from the receiver reports delivery-count in [initial + deliveries the application had received, initial + deliveries arrived] and link-credit equal to the policy's intent (set_credit value / Auto maximum on refresh / remaining credit on drain); whenever the application has received and disposed of everything that arrived under Auto(n), the latest flow leaves credit outstanding (a credit-respecting sender never stalls, streams of 6n+ deliveries complete); a delivery beyond the credit is not returned by recv: recv fails with TransferLimitExceeded and the detach carries amqp:link:transfer-limit-exceeded. Non-trivial: stream longer than the credit, or an overrun injected; distinct by hash of the case.",
         assumptions: &[
             "delivery-count in a flow may lie anywhere between the count the application had taken and the count that arrived (the code advances it when the application takes the delivery)",
             "replenishment is only claimed for applications that dispose of what they receive",
@@ -43,6 +43,10 @@ pub enum Op {
         /// the deliveries are sent pre-settled
         #[serde(default)]
         settled: bool,
+        /// the payload does not decode into the type the application asks for: recv reports
+        /// MessageDecode and the application rejects the delivery through the info it carries
+        #[serde(default)]
+        bad: bool,
     },
     /// application receives one delivery and: 0 accepts, 1 rejects, 2 releases, 3 keeps it undisposed
     Recv { how: u8 },
@@ -64,6 +68,9 @@ pub struct Case {
     pub ops: Vec<Op>,
     pub overrun_at_end: bool,
     pub rcv_settle_second: bool,
+    /// the receiver accepts every delivery itself (auto_accept); the application only receives
+    #[serde(default)]
+    pub auto_accept: bool,
     pub tokio_seed: u64,
     pub choices: Vec<u8>,
     pub pipe: PipeCfg,
@@ -71,7 +78,7 @@ pub struct Case {
 
 fn op() -> BoxedStrategy<Op> {
     prop_oneof![
-        6 => (1u8..8, 1u8..4, prop::bool::weighted(0.3)).prop_map(|(n, frames, settled)| Op::PeerSend { n, frames, settled }),
+        6 => (1u8..8, 1u8..4, prop::bool::weighted(0.3), prop::bool::weighted(0.12)).prop_map(|(n, frames, settled, bad)| Op::PeerSend { n, frames, settled, bad }),
         6 => prop_oneof![6 => Just(0u8), 1 => Just(1u8), 1 => Just(2u8), 1 => Just(3u8)].prop_map(|how| Op::Recv { how }),
         3 => (1u8..7).prop_map(|k| Op::RecvBatch { k }),
         2 => prop_oneof![Just(0u32), Just(1), Just(2), 3u32..12].prop_map(Op::SetCredit),
@@ -89,11 +96,12 @@ pub fn case_strategy() -> BoxedStrategy<Case> {
         vec(op(), 1..60),
         prop::bool::weighted(0.3),
         any::<bool>(),
+        prop::bool::weighted(0.3),
         any::<u64>(),
         gen::choices_bytes(),
         simnet::strat::pipe_cfg(),
     )
-        .prop_map(|(i0, auto, ops, overrun_at_end, rcv_settle_second, tokio_seed, choices, pipe)| Case { i0, auto, ops, overrun_at_end, rcv_settle_second, tokio_seed, choices, pipe: PipeCfg { cap: 1 << 22, ..pipe } })
+        .prop_map(|(i0, auto, ops, overrun_at_end, rcv_settle_second, auto_accept, tokio_seed, choices, pipe)| Case { i0, auto, ops, overrun_at_end, rcv_settle_second, auto_accept, tokio_seed, choices, pipe: PipeCfg { cap: 1 << 22, ..pipe } })
         .boxed()
 }
 
@@ -105,23 +113,32 @@ enum Cmd {
     RecvExpectErr(oneshot::Sender<String>),
 }
 
-async fn app(mut r: Receiver, mut rx: mpsc::Receiver<Cmd>) {
+async fn app(mut r: Receiver, mut rx: mpsc::Receiver<Cmd>, auto_accept: bool) {
     let mut kept: Vec<Delivery<Body<Value>>> = Vec::new();
     while let Some(cmd) = rx.recv().await {
         match cmd {
             Cmd::Recv { n, how, batch, done } => {
                 let mut got = Vec::new();
                 let mut err = None;
+                let mut undecodable = 0usize;
                 for _ in 0..n {
                     match r.recv::<Body<Value>>().await {
                         Ok(d) => got.push(d),
+                        Err(RecvError::MessageDecode(e)) => {
+                            // the documented way to dispose of such a delivery
+                            undecodable += 1;
+                            if let Err(e) = r.reject(e.info, None).await {
+                                err = Some(format!("rejecting an undecodable delivery failed: {e:?}"));
+                                break;
+                            }
+                        }
                         Err(e) => {
                             err = Some(format!("recv failed: {e:?}"));
                             break;
                         }
                     }
                 }
-                if err.is_none() {
+                if err.is_none() && !auto_accept {
                     let res = if batch {
                         r.accept_all(got.iter().collect::<Vec<_>>()).await
                     } else {
@@ -143,8 +160,8 @@ async fn app(mut r: Receiver, mut rx: mpsc::Receiver<Cmd>) {
                         err = Some(format!("disposition failed: {e:?}"));
                     }
                 }
-                let n = got.len();
-                if how == 3 {
+                let n = got.len() + undecodable;
+                if how == 3 || auto_accept {
                     kept.extend(got);
                 }
                 let _ = done.send(match err {
@@ -176,6 +193,7 @@ pub struct Info {
     pub overrun: bool,
     pub wrapped: bool,
     pub flows: usize,
+    pub undecodable: bool,
 }
 
 pub async fn run_async(c: &Case, on_take_open: bool, excluded: &std::cell::Cell<u32>) -> Result<Info, String> {
@@ -190,14 +208,14 @@ pub async fn run_async(c: &Case, on_take_open: bool, excluded: &std::cell::Cell<
     let (receiver, att) = peer::answer_attach(
         &mut peer,
         my_ch,
-        Receiver::builder().name("r").source("q").credit_mode(mode).receiver_settle_mode(rsm).attach(&mut sess),
+        Receiver::builder().name("r").source("q").credit_mode(mode).receiver_settle_mode(rsm).auto_accept(c.auto_accept).attach(&mut sess),
         |a| Peer::attach_body("r", ph, false, None, as_uint(&a.field(4)).map(|x| x as u8).or(match a.field(4) { RValue::Ubyte(x) => Some(x), _ => None }), Some(c.i0), None, false),
         |_a| vec![],
     )
     .await?;
     let eh = as_uint(&att.field(1)).ok_or("attach without handle")?;
     let (tx, rx) = mpsc::channel(16);
-    tokio::spawn(app(receiver, rx));
+    tokio::spawn(app(receiver, rx, c.auto_accept));
 
     // model
     let mut arrived: u64 = 0; // complete deliveries the peer sent
@@ -207,7 +225,7 @@ pub async fn run_async(c: &Case, on_take_open: bool, excluded: &std::cell::Cell<
     let mut limit: u64 = 0; // latest advertised delivery-count + link-credit, as offset from i0
     let mut next_delivery_id: u32 = cfg.peer_next_outgoing_id;
     let mut frames_sent: u64 = 0;
-    let mut info = Info { long_stream: false, overrun: false, wrapped: false, flows: 0 };
+    let mut info = Info { long_stream: false, overrun: false, wrapped: false, flows: 0, undecodable: false };
     let mut received_at_last_settle: u64 = 0;
     let mut policy_credit: Option<u64> = c.auto.map(|n| n as u64);
     // the next flow is the one an explicit drain() produces: only that one may carry drain=true
@@ -286,13 +304,19 @@ pub async fn run_async(c: &Case, on_take_open: bool, excluded: &std::cell::Cell<
     for (k, op) in c.ops.iter().enumerate() {
         let what = format!("step {k} {:?}", op);
         match op {
-            Op::PeerSend { n, frames, settled } => {
+            Op::PeerSend { n, frames, settled, bad } => {
                 for _ in 0..*n {
                     if arrived >= limit {
                         break;
                     }
                     let tag = (arrived as u32).to_be_bytes();
-                    let payload_full: Vec<u8> = {
+                    let payload_full: Vec<u8> = if *bad {
+                        // an amqp-value section whose string claims more bytes than the delivery carries
+                        info.undecodable = true;
+                        let mut p = vec![0x00, 0x53, 0x77, 0xa1, 200];
+                        p.extend((0..24u8).map(|i| b'a' + (i % 26)));
+                        p
+                    } else {
                         let mut p = vec![0x00, 0x53, 0x77, 0xa0, 24];
                         p.extend((0..24u8).map(|i| i.wrapping_add(arrived as u8)));
                         p
@@ -324,6 +348,12 @@ pub async fn run_async(c: &Case, on_take_open: bool, excluded: &std::cell::Cell<
                 if n == 0 {
                     continue;
                 }
+                // with auto_accept every recv disposes (and may refresh the credit) on its own: the batch is
+                // executed one delivery at a time so that the model sees each refresh (likewise when undecodable
+                // deliveries occur, which the application rejects as it meets them)
+                let one_by_one = c.auto_accept || c.ops.iter().any(|o| matches!(o, Op::PeerSend { bad: true, .. }));
+                let (reps, n) = if one_by_one { (n, 1usize) } else { (1usize, n) };
+                for _rep in 0..reps {
                 let (dtx, drx) = oneshot::channel();
                 tx.send(Cmd::Recv { n, how, batch, done: dtx }).await.map_err(|_| "app gone".to_string())?;
                 let got = match tokio::time::timeout(std::time::Duration::from_secs(10), drx).await {
@@ -333,7 +363,7 @@ pub async fn run_async(c: &Case, on_take_open: bool, excluded: &std::cell::Cell<
                 };
                 received += got as u64;
                 credit_var = credit_var.saturating_sub(got as u64);
-                if how == 3 {
+                if how == 3 && !c.auto_accept {
                     disposed_all = false;
                 }
                 // a flow caused by this op (auto refresh) restores the policy's maximum
@@ -357,6 +387,7 @@ pub async fn run_async(c: &Case, on_take_open: bool, excluded: &std::cell::Cell<
                     if received > 6 * p {
                         info.long_stream = true;
                     }
+                }
                 }
             }
             Op::SetCredit(_) | Op::Drain if on_take_open && received < arrived => {
@@ -457,7 +488,9 @@ pub async fn run_async(c: &Case, on_take_open: bool, excluded: &std::cell::Cell<
         model_credit = policy_credit;
         step!("final drain of arrived deliveries");
     }
-    if c.overrun_at_end {
+    // (with auto_accept under Auto the receiver re-issues credit while the application takes the deliveries
+    // that are within credit, so no delivery stays beyond the credit: the overrun clause is exercised without it)
+    if c.overrun_at_end && !(c.auto_accept && c.auto.is_some()) {
         // use up the remaining credit, then send one delivery too many
         let mut guard = 0;
         while arrived < limit && guard < 300 {
@@ -533,7 +566,7 @@ fn case(ctx: &ShardCtx, c: &Case, obs: &mut Obs) -> Result<(), String> {
     }
     match r {
         Ok(Ok(info)) => {
-            for (b, n) in [(info.long_stream, "stream-longer-than-6x-credit"), (info.overrun, "overrun-injected"), (info.wrapped, "delivery-count-crossed-2^32"), (info.flows > 2, "several-flows-checked")] {
+            for (b, n) in [(info.long_stream, "stream-longer-than-6x-credit"), (info.overrun, "overrun-injected"), (info.wrapped, "delivery-count-crossed-2^32"), (info.flows > 2, "several-flows-checked"), (info.undecodable, "undecodable-delivery"), (c.auto_accept, "auto-accept")] {
                 if b {
                     obs.class(n);
                 }
